@@ -45,6 +45,12 @@ type Script struct {
 
 	// Not the hop's doing, but part of the attempt: what is wrong with the spooled body the target
 	// is given (the harness wraps the buffer, see FaultBuffer).
+	// Enh: how the enhanced status code of every 4xx/5xx reply of this attempt reads (the basic code
+	// stays what the action letter says): 0 or 'a' agreeing with the basic code (as written in the
+	// reply tables), 'n' absent, '2' '4' '5' that class (2.0.0 4.2.2 5.1.1), '0' 0.1.1, '1' 1.1.1,
+	// '9' 9.0.0, 'm' -1.-1.-1, 'k' <class>.1000.1
+	Enh byte
+
 	BodyOpen     bool // Open fails
 	BodyK        int  // the reader fails after BodyK octets (-1 = it does not fail)
 	BodyTogether bool // the error is returned together with the last octets
@@ -101,9 +107,55 @@ func (f *faultReader) Read(p []byte) (int, error) {
 
 func (f *faultReader) Close() error { return nil }
 
+// Restyle rewrites the enhanced status code of a reply line "<code> <x.y.z> text".
+func Restyle(reply string, style byte) string {
+	f := strings.SplitN(reply, " ", 3)
+	if len(f) != 3 || style == 0 || style == 'a' {
+		return reply
+	}
+	var ec string
+	switch style {
+	case 'n':
+		return f[0] + " " + f[2]
+	case '2':
+		ec = "2.0.0"
+	case '4':
+		ec = "4.2.2"
+	case '5':
+		ec = "5.1.1"
+	case '0':
+		ec = "0.1.1"
+	case '1':
+		ec = "1.1.1"
+	case '9':
+		ec = "9.0.0"
+	case 'm':
+		ec = "-1.-1.-1"
+	case 'k':
+		ec = f[0][:1] + ".1000.1"
+	default:
+		return reply
+	}
+	return f[0] + " " + ec + " " + f[2]
+}
+
+// Event: a reply of the hop that concerns one recipient (ground truth for "never re-attempted
+// after a permanent failure"): Stage "rcpt" (the reply to its RCPT command, 250 included), "data"
+// (the reply to DATA / after the final dot of a transaction it was accepted in), "status" (its LMTP
+// status).  Code 0 = the hop did not answer (connection closed, reset, silence).  Epoch = number of
+// the attempt (Install calls so far, 1-based).
+type Event struct {
+	Epoch int
+	Rcpt  string
+	Stage string
+	Code  int
+}
+
 // Shared is what the listeners of one case have in common.
 type Shared struct {
 	mu     sync.Mutex
+	epoch  int
+	Events []Event
 	script *Script
 	Acked  [][]string // recipients (as received) of each acknowledged transaction; LMTP: one entry per 250
 	Cmds   map[string]int
@@ -129,9 +181,31 @@ func (sh *Shared) Install(s *Script, hops ...*Hop) {
 	sh.mu.Lock()
 	defer sh.mu.Unlock()
 	sh.script = s
+	sh.epoch++
 	for _, h := range hops {
 		h.mails = 0
 	}
+}
+
+// EventLog returns the per-recipient replies so far.
+func (sh *Shared) EventLog() []Event {
+	sh.mu.Lock()
+	defer sh.mu.Unlock()
+	return append([]Event{}, sh.Events...)
+}
+
+func (sh *Shared) event(rcpt, stage string, code int) {
+	sh.mu.Lock()
+	sh.Events = append(sh.Events, Event{sh.epoch, rcpt, stage, code})
+	sh.mu.Unlock()
+}
+
+func replyCode(reply string) int {
+	n := 0
+	for i := 0; i < 3 && i < len(reply); i++ {
+		n = n*10 + int(reply[i]-'0')
+	}
+	return n
 }
 
 func (sh *Shared) Snapshot() (acked [][]string, cmds map[string]int) {
@@ -217,14 +291,23 @@ func (h *Hop) session(c net.Conn) {
 		h.sh.mu.Unlock()
 	}
 	// fault performs action act at stage; it reports whether the session is over.
+	lastCode := 0 // basic code of the reply the last fault() sent (0 = none)
+	style := func() byte {
+		h.sh.mu.Lock()
+		defer h.sh.mu.Unlock()
+		return h.sh.script.Enh
+	}
 	fault := func(stage string, act byte) bool {
 		count(stage + "." + string(act))
+		lastCode = 0
 		switch act {
 		case 't', 'p', 'x', 'T', 'P':
-			w(replies[stage][act])
+			lastCode = replyCode(replies[stage][act])
+			w(Restyle(replies[stage][act], style()))
 			return false
 		case 'c':
-			w(replies[stage][act])
+			lastCode = replyCode(replies[stage][act])
+			w(Restyle(replies[stage][act], style()))
 			return true
 		case 'd':
 			return true
@@ -297,16 +380,20 @@ func (h *Hop) session(c net.Conn) {
 				}
 			}
 			if sc.Limit >= 0 && len(accepted) >= sc.Limit && sc.LimitAct != 'o' {
-				if fault("limit", sc.LimitAct) {
+				over := fault("limit", sc.LimitAct)
+				h.sh.event(Key(a), "rcpt", lastCode)
+				if over {
 					return
 				}
 				continue
 			}
 			if code := sc.Rej[Key(a)]; code != 0 {
-				w(fmt.Sprintf("%d %d.1.1 recipient refused", code, code/100))
+				h.sh.event(Key(a), "rcpt", code)
+				w(Restyle(fmt.Sprintf("%d %d.1.1 recipient refused", code, code/100), sc.Enh))
 				continue
 			}
 			accepted = append(accepted, a)
+			h.sh.event(Key(a), "rcpt", 250)
 			w("250 2.1.5 ok")
 		case strings.HasPrefix(cmd, "DATA"):
 			if !inTx || len(accepted) == 0 {
@@ -315,6 +402,9 @@ func (h *Hop) session(c net.Conn) {
 			}
 			if sc.DataAct == 'T' || sc.DataAct == 'P' {
 				fault("data", sc.DataAct)
+				for _, a := range accepted {
+					h.sh.event(Key(a), "data", lastCode)
+				}
 				continue
 			}
 			w("354 go ahead")
@@ -341,19 +431,28 @@ func (h *Hop) session(c net.Conn) {
 						h.sh.mu.Lock()
 						h.sh.Acked = append(h.sh.Acked, []string{rcpts[i]})
 						h.sh.mu.Unlock()
+						h.sh.event(Key(rcpts[i]), "status", 250)
 						w("250 2.0.0 delivered")
 					} else {
-						w(fmt.Sprintf("%d %d.2.0 mailbox problem", code, code/100))
+						h.sh.event(Key(rcpts[i]), "status", code)
+						w(Restyle(fmt.Sprintf("%d %d.2.0 mailbox problem", code, code/100), sc.Enh))
 					}
 				}
 				if n < len(rcpts) {
+					for _, a := range rcpts[n:] {
+						h.sh.event(Key(a), "status", 0)
+					}
 					count("data.lmtpdrop")
 					return
 				}
 				continue
 			}
 			if sc.DataAct != 'o' {
-				if fault("data", sc.DataAct) {
+				over := fault("data", sc.DataAct)
+				for _, a := range rcpts {
+					h.sh.event(Key(a), "data", lastCode)
+				}
+				if over {
 					return
 				}
 				continue
@@ -361,6 +460,9 @@ func (h *Hop) session(c net.Conn) {
 			h.sh.mu.Lock()
 			h.sh.Acked = append(h.sh.Acked, append([]string{}, rcpts...))
 			h.sh.mu.Unlock()
+			for _, a := range rcpts {
+				h.sh.event(Key(a), "data", 250)
+			}
 			w("250 2.0.0 queued")
 		case strings.HasPrefix(cmd, "RSET"), strings.HasPrefix(cmd, "QUIT"):
 			isQuit := strings.HasPrefix(cmd, "QUIT")
